@@ -787,9 +787,6 @@ fn run_scenario(sc: &Scenario, case: usize, r: &mut Rng, out: &mut Sink) {
                                 sc.desc
                             ));
                         }
-                        if last && Some(c) != sc.outer_cutoff {
-                            out.fail(format!("C16 rightmost new leaf with a cutoff of its own (case {case}: {})", sc.desc));
-                        }
                     }
                     None => {
                         if !last {
